@@ -11,7 +11,10 @@ use std::path::{Path, PathBuf};
 use std::process::{Child, Command, Stdio};
 use std::time::{Duration, Instant};
 
-pub const VERIF_ROOT: &str = "/verif";
+/// root of the verification tree (the `check` script exports its own location)
+pub fn verif_root() -> PathBuf {
+    PathBuf::from(std::env::var("VERIF_ROOT").unwrap_or_else(|_| "/verif".to_string()))
+}
 
 #[derive(Clone, Copy, PartialEq, Eq, Debug)]
 pub enum Tier {
@@ -238,7 +241,7 @@ struct Slot {
 }
 
 pub fn scratch_dir() -> PathBuf {
-    let d = Path::new(VERIF_ROOT)
+    let d = verif_root()
         .join(".scratch")
         .join(format!("{}", std::process::id()));
     std::fs::create_dir_all(&d).expect("scratch dir");
@@ -246,7 +249,7 @@ pub fn scratch_dir() -> PathBuf {
 }
 
 pub fn remove_scratch() {
-    let d = Path::new(VERIF_ROOT)
+    let d = verif_root()
         .join(".scratch")
         .join(format!("{}", std::process::id()));
     let _ = std::fs::remove_dir_all(d);
@@ -493,7 +496,7 @@ pub struct KnownFile {
 }
 
 pub fn load_known() -> KnownFile {
-    let path = Path::new(VERIF_ROOT).join("known_findings.json");
+    let path = verif_root().join("known_findings.json");
     match std::fs::read_to_string(path) {
         Ok(t) => serde_json::from_str(&t).expect("known_findings.json must parse"),
         Err(_) => KnownFile::default(),
@@ -507,7 +510,7 @@ pub fn conclude(p: &dyn Property, tier: Tier, seed: u64, res: RunResult) -> i32 
     let info = p.info(tier);
     let acc = &res.acc;
     let mut unlisted = 0;
-    let replay_dir = Path::new(VERIF_ROOT).join("replays").join(id);
+    let replay_dir = verif_root().join("replays").join(id);
     let _ = std::fs::create_dir_all(&replay_dir);
     let mut known_hits = Vec::new();
     let mut viol_out = Vec::new();
@@ -594,7 +597,7 @@ pub fn conclude(p: &dyn Property, tier: Tier, seed: u64, res: RunResult) -> i32 
         "wall_s": res.wall_s,
         "violations": unlisted,
     });
-    let ev_dir = Path::new(VERIF_ROOT).join("evidence");
+    let ev_dir = verif_root().join("evidence");
     let _ = std::fs::create_dir_all(&ev_dir);
     std::fs::write(
         ev_dir.join(format!("{id}.json")),
